@@ -365,6 +365,17 @@ func doFormat(w io.Writer, obj Object, opt OutputOptions, needSep bool) (bool, e
 		}
 
 	case Dict:
+		if x == nil {
+			// like a nil Array, a nil Dict is the null object
+			if needSep {
+				_, err := io.WriteString(w, " ")
+				if err != nil {
+					return false, err
+				}
+			}
+			_, err := io.WriteString(w, "null")
+			return true, err
+		}
 		err := formatDict(w, opt, x)
 		return false, err
 
